@@ -217,8 +217,10 @@ func signedMessageCoverage(e *Env) {
 			bufWrite("msg.url.len", "local:buf", be8("conv(len(conv(param:e.RequestURI)))")),
 			bufWrite("msg.url", "local:buf", "conv(param:e.RequestURI)"),
 			gate.CallOK("msg.headers.encode", "(*signedexchange.Exchange).encodeExchangeHeaders", "param:e", "call:cbor.NewEncoder({alloc:bytes.Buffer|local:*})"),
-			bufWrite("msg.headers.len", "local:buf", be8("conv(call:(*bytes.Buffer).Len({alloc:bytes.Buffer|local:*}))")),
-			gate.CallInstr("msg.headers", "(*bytes.Buffer).WriteTo", "{alloc:bytes.Buffer|local:*}", "local:buf"),
+			bufWrite("msg.headers.len", "local:buf", be8("conv({call:(*bytes.Buffer).Len({alloc:bytes.Buffer|local:*})|len(call:(*bytes.Buffer).Bytes({alloc:bytes.Buffer|local:*}))})")),
+			either("msg.headers", "the header CBOR is appended to the message",
+				gate.CallInstr("", "(*bytes.Buffer).WriteTo", "{alloc:bytes.Buffer|local:*}", "local:buf"),
+				bufWrite("", "local:buf", "call:(*bytes.Buffer).Bytes({alloc:bytes.Buffer|local:*})")),
 			gate.CallInstr("msg.context", "(*bytes.Buffer).WriteString", "local:buf", "call:signedexchange.contextString(param:e.Version)"),
 		)
 	}
@@ -299,10 +301,10 @@ func appendCarriesHeaderEntry(app *ssa.Call) bool {
 						continue
 					}
 					a := c.Common().Args
-					if prov.Match("param:keyE", prov.Of(a[0])) && prov.Match("conv(call:strings.ToLower(free:name))", prov.Of(a[1])) {
+					if prov.Match("param:keyE", prov.Of(a[0])) && prov.Match("conv(call:strings.ToLower({free:name|rangekey(param:headers)}))", prov.Of(a[1])) {
 						hasKey = true
 					}
-					if prov.Match("param:valueE", prov.Of(a[0])) && prov.Match("conv(call:*.normalizeHeaderValues(free:value))", prov.Of(a[1])) {
+					if prov.Match("param:valueE", prov.Of(a[0])) && prov.Match("conv(call:*.normalizeHeaderValues({free:value|rangeval(param:headers)}))", prov.Of(a[1])) {
 						hasVal = true
 					}
 				}
